@@ -38,7 +38,8 @@ func (varsScen) Rule(string) string {
 }
 
 var vaNames = []string{"VERSION", "NAME", "TARGET", "OPT_FLAGS", "EDITOR", "CC", "LANG_X"}
-var vaChars = []string{"a", "b", "Z", "0", "7", " ", "  ", "$", "{", "}", ".", ",", ":", ";", "/", "=", "+", "-", "_", "@", "%", "^", "&", "*", "(", ")", "[", "]", "<", ">", "?", "!", "~", "|", "{{", "}}", "$HOME", "${X}", "#"}
+var vaChars = []string{"a", "b", "Z", "0", "7", " ", "  ", "$", "{", "}", ".", ",", ":", ";", "/", "=", "+", "-", "_", "@", "%", "^", "&", "*", "(", ")", "[", "]", "<", ">", "?", "!", "~", "|", "{{", "}}", "$HOME", "${X}", "#",
+	`\`, `\\`, `\t`, `\n`, `\x41`, `C:\tools\bin`}
 
 func vaValue(r *Rng) string {
 	n := r.Range(0, 6)
